@@ -12,7 +12,8 @@ import SynthVerif.Props.Interp
 * `retained`: a poll that does not recompute the position (out of range, or buffer not yet full) leaves `value()`
   unchanged.
 The correction `a − (a − a²)·K` is monotone as a real function for `K ≤ 1`; its f32 evaluation is monotone only up
-to an ulp, so "between the corrected minimum and maximum" is checked by the oracle with that slack (`partial`).
+to an ulp.  `C16Bounds.lean` proves "between the corrected minimum and maximum" and the monotonicity with that explicit
+slack (`corrected_between`, `position_mono`).
 -/
 namespace C16
 open F32
